@@ -132,6 +132,46 @@ func New(opt Options) (*Env, error) {
 	return e, nil
 }
 
+// AttachOptions: see Attach.
+type AttachOptions struct {
+	SkipConfig bool
+}
+
+// Attach makes this process a further server process of an environment that another
+// process created with New: the same BBSHOME, the same shared-memory segment (opened, not
+// created, and neither reset nor reloaded) and the same semaphore key. It does not run
+// cmbbs.PasswdInit — the caller does, as main_init does for a starting server. The package
+// test switches stay off, so this process cannot reset, detach-and-remove or destroy the
+// shared objects; the creator removes them in Close. The keys and the home are registered in
+// $VERIF_WORK/cleanup.txt once more, so ./check removes them even if only this process is left.
+// AttachOptions.SkipConfig leaves types.InitConfig out (the Big5 tables take ~60 ms to load): for
+// short-lived processes that never convert text.
+func Attach(home string, shmKey, semKey int, opt AttachOptions) (*Env, error) {
+	Quiet()
+	repo := repoRoot()
+	e := &Env{Home: home, Repo: repo, ShmKey: shmKey, SemKey: semKey}
+	if w := os.Getenv("VERIF_WORK"); w != "" {
+		if f, err := os.OpenFile(filepath.Join(w, "cleanup.txt"), os.O_APPEND|os.O_CREATE|os.O_WRONLY, 0o644); err == nil {
+			fmt.Fprintf(f, "shm 0x%x\nsem 0x%x\ndir %s\n", e.ShmKey, e.SemKey, home)
+			f.Close()
+		}
+	}
+	types.BIG5_TO_UTF8 = filepath.Join(repo, "types", "uao250-b2u.big5.txt")
+	types.UTF8_TO_BIG5 = filepath.Join(repo, "types", "uao250-u2b.big5.txt")
+	if !opt.SkipConfig {
+		if err := types.InitConfig(); err != nil {
+			return nil, fmt.Errorf("types.InitConfig: %w", err)
+		}
+	}
+	ptttype.SetBBSHOME(home)
+	ptttype.SHM_KEY = types.Key_t(e.ShmKey)
+	ptttype.PASSWDSEM_KEY = e.SemKey
+	if err := cache.NewSHM(types.Key_t(e.ShmKey), ptttype.USE_HUGETLB, false); err != nil {
+		return nil, fmt.Errorf("NewSHM (attach): %w", err)
+	}
+	return e, nil
+}
+
 // ResetSHM zeroes the segment and reloads the user index and board cache from
 // the files currently in BBSHOME.
 func (e *Env) ResetSHM() error {
